@@ -207,7 +207,7 @@ func c17Scenarios(tier string) []engine.Scenario {
 	for _, js := range []bool{false, true} {
 		sc := engine.Scenario{
 			Name: fmt.Sprintf("all-modules,json=%v", js), Depth: depth,
-			Cfg: world.Config{Modules: []string{"auth", "otp", "remember", "oauth2", "recover", "register", "confirm", "logout", "totp2fa", "sms2fa", "recovery"}, JSON: js, RecoverLoginAfter: true, EmailAuthRequired: true, SharedLayout: true, OnUnauthed: authboss.RespondRedirect},
+			Cfg: world.Config{Modules: []string{"auth", "otp", "remember", "oauth2", "recover", "register", "confirm", "logout", "totp2fa", "sms2fa", "recovery"}, JSON: js, RecoverLoginAfter: true, EmailAuthRequired: true, SharedLayout: true, OnUnauthed: authboss.RespondRedirect, OneTimeUser: true},
 			Init: func(s *world.Stack) *world.World {
 				w := world.NewWorld("B1", "B2")
 				w.Layout = map[string]interface{}{"site_name": "verif"}
@@ -258,6 +258,14 @@ func c17Scenarios(tier string) []engine.Scenario {
 			}
 			a = append(a, flows.A("login(B2,u2,pw:cur)", func(s *world.Stack, _ *world.World) world.Req { return flows.Login(s, "B2", U2, P2, false) }, ""))
 			a = append(a, twofaValidateActs(s, w, "B2", []string{U1, U2}, []string{N1}, false)...)
+			if w.Browsers["B2"].Session["totp_pending"] == U2 {
+				// a recovery code typed into the box for the 6-digit code
+				a = append(a, flows.A("totp-validate(B2,rc-in-code-field)", func(s *world.Stack, _ *world.World) world.Req {
+					r := flows.TOTPValidate(s, "B2", "ddddd-44444", "")
+					r.Tag.Note = "rc-in-code-field"
+					return r
+				}, ""))
+			}
 			a = append(a, simple("otp-add(B1)", func(s *world.Stack) world.Req { return flows.OTPAdd(s, b) }))
 			if sec := w.Truth.Newest("otp", U1, false); sec != nil {
 				for _, c := range []cand{{"otp:live", sec.Val}, {"otp:live+suffix", sec.Val + "0"}} {
@@ -274,6 +282,7 @@ func c17Scenarios(tier string) []engine.Scenario {
 			a = append(a, flows.A("register(B2,u3)", regU3, U3))
 			// the same mail-sending requests with the mailer failing: the token was generated and stored, so it stays a secret
 			a = append(a, flows.AMailFault("register(B2,u3)", regU3, U3))
+			a = append(a, flows.AMailRenderFault("register(B2,u3)", regU3, U3))
 			for _, owner := range []string{U3, U1} {
 				if sec := w.Truth.Newest("ctok", owner, false); sec != nil {
 					for _, c := range []cand{{"ctok:live", sec.Val}, {"ctok:live+trailing-char", sec.Val + "."}, {"ctok:live-truncated", sec.Val[:len(sec.Val)-3]}} {
@@ -287,6 +296,7 @@ func c17Scenarios(tier string) []engine.Scenario {
 			}
 			a = append(a, flows.A("recover-start(B2,u1)", func(s *world.Stack, _ *world.World) world.Req { return flows.RecoverStart(s, "B2", U1) }, U1))
 			a = append(a, flows.AMailFault("recover-start(B2,u1)", func(s *world.Stack, _ *world.World) world.Req { return flows.RecoverStart(s, "B2", U1) }, U1))
+			a = append(a, flows.AMailRenderFault("recover-start(B2,u1)", func(s *world.Stack, _ *world.World) world.Req { return flows.RecoverStart(s, "B2", U1) }, U1))
 			if sec := w.Truth.Newest("rtok", U1, false); sec != nil {
 				for _, c := range []cand{{"rtok:live", sec.Val}, {"rtok:live+trailing-char", sec.Val + "."}, {"rtok:live-truncated", sec.Val[:len(sec.Val)-3]}} {
 					a = append(a, flows.A(fmt.Sprintf("recover-end(B2,%s)", c.note), func(s *world.Stack, _ *world.World) world.Req {
@@ -356,13 +366,13 @@ var _ = time.Second
 func init() {
 	engine.Register(&engine.Property{
 		ID: "C17", Level: "model_checking",
-		Rule:  "E1 over the union of the successful and failing steps of every flow (all modules, e-mail authorisation on, form and JSON) incl. near-miss inputs a user really produces (mailed token with a trailing character or truncated, wrong password with the right one as a prefix); after every transition every known plaintext is searched for in all stored fields, the remember table and the transition's log lines, token mails are checked against the owner's addresses, and every response body / location is searched for mailed tokens the request did not itself present; classes = request kinds, mail kinds and secret kinds in play",
+		Rule: "E1 over the union of the successful and failing steps of every flow (all modules, e-mail authorisation on, form and JSON) incl. near-miss inputs a user really produces (mailed token with a trailing character or truncated, wrong password with the right one as a prefix); after every transition every known plaintext is searched for in all stored fields, the remember table and the transition's log lines, token mails are checked against the owner's addresses, and every response body / location is searched for mailed tokens the request did not itself present; classes = request kinds, mail kinds and secret kinds in play",
 		Units: func(tier string) []engine.Unit {
 			scs := c17Scenarios(tier)
 			return e1Units(append(scs, configVariants(scs[:1], tier, "err500", "nomount")...))
 		},
 		Need: []string{"mail-failed:rtok", "mail-failed:ctok", "mail-failed:vtok", "known-secret:password", "known-secret:otp", "known-secret:rc", "known-secret:rm", "known-secret:rtok", "known-secret:ctok", "known-secret:vtok",
 			"mail:rtok", "mail:ctok", "mail:vtok", "request:confirm", "request:recover_end", "request:otplogin"},
-		Assumptions: []string{"TOTP secrets and the session-held SMS / e-mail-verify values are outside the statement and are not scanned", "of the backends only the mailer is made to fail in this alphabet (register, recover start, 2FA e-mail verification with Mailer.Send returning an error); malformed percent-encoding is not in it (DESIGN.md 7.11)", "responses are scanned for mailed tokens only (a token may appear only in the response to a request that presented it); passwords and codes in responses are out of scope by the statement", "the application injects one layout data map into every request context (CTXKeyData)"},
+		Assumptions: []string{"TOTP secrets and the session-held SMS / e-mail-verify values are outside the statement and are not scanned", "of the backends only the mailer is made to fail in this alphabet (register, recover start, 2FA e-mail verification with Mailer.Send returning an error, or the mail template failing to render); malformed percent-encoding is not in it (DESIGN.md 7.11)", "responses are scanned for mailed tokens only (a token may appear only in the response to a request that presented it); passwords and codes in responses are out of scope by the statement", "the application injects one layout data map into every request context (CTXKeyData)"},
 	})
 }
